@@ -274,7 +274,7 @@ func batchSizeClass(n int) string {
 var batchSizes = []int{0, 1, 2, 3, 4, 5, 6, 7, 8, 9, 31, 32, 33, 62, 63, 64, 65, 66, 67, 68, 69, 70, 126, 127, 128, 129, 130, 131, 132, 133, 191, 192, 193, 194, 200}
 
 var badKinds = []string{"wrong-msg", "flip-R", "flip-S", "flip-key", "S+L", "so-key", "so-R", "undecodable-key", "undecodable-R",
-	"short-key", "long-key", "nil-key", "short-sig", "long-sig", "long-sig-zeropad", "nil-sig", "empty-sig", "topbits-S", "zip-only-smallkey", "zip-only-R", "S=L-smallkey", "wrong-prehash-len"}
+	"short-key", "long-key", "nil-key", "short-sig", "long-sig", "long-sig-zeropad", "nil-sig", "empty-sig", "topbits-S", "zip-only-smallkey", "zip-only-R", "S=L-smallkey", "wrong-prehash-len", "other-variant-sig"}
 
 // entry factory: a few model-signed honest triples per batch variant are
 // recycled (signing with the model costs ~1 ms).
@@ -393,6 +393,20 @@ func (p *entryPool) badEntry(kind string) gen.Triple {
 			return gen.Triple{Pub: A.Enc, Msg: msg, Sig: ref.SignWith(a, big.NewInt(0), A.Enc, re, msg, p.v)}
 		})
 		t.Family = kind
+	case "other-variant-sig":
+		// a signature that is valid under another variant with the same context
+		// bytes; for ph batches over a message that is not a 64-byte digest
+		ov := ref.Variant{Pure: len(p.v.Ctx) == 0, Ctx: p.v.Ctx}
+		if !p.v.Ph {
+			ov = ref.Variant{Ph: true, Ctx: p.v.Ctx}
+		}
+		m := gen.RandBytes(rng, []int{0, 1, 32, 63, 65, 100}[rng.Intn(6)])
+		if ov.Ph {
+			m = gen.RandBytes(rng, 64)
+		}
+		sd := gen.Seed(rng)
+		pub, sig := ref.Sign(sd, m, ov)
+		t = gen.Triple{Pub: pub, Msg: m, Sig: sig, V: p.v, Family: kind}
 	case "wrong-prehash-len":
 		if p.v.Ph {
 			t.Msg = gen.RandBytes(rng, []int{0, 1, 63, 65, 128}[rng.Intn(5)])
